@@ -3,15 +3,15 @@
 import json, sys
 claimed = {
  "C06": ("exploration", "4 C06",
-   "Seeded deterministic simulation of dynamic-scope worlds: two chains of 0-3 schema resources (embedded or Loader-supplied, each with $dynamicAnchor / $anchor / nothing, entered through $ref, fragment-less $dynamicRef or in-place applicators) ending in one $dynamicRef in fragment, resource-relative or pointer form, with resources entered at a subschema, detours through failing branches, permuted chains (same set of resources in two orders) and fan-out roots (both chains in one call); a history of 6-16 Validate calls on ONE Resolved alternates between the chains with right, wrong and missing markers; 4 map-order schedules. Every verdict is compared with a 6-line outermost-first model and, on disagreement, with a freshly resolved copy to tell a topology error from a scope leak. Decides the histories clause and the Loader-layout clause; the purely topological single-document clause is a by-product.",
+   "Seeded deterministic simulation of dynamic-scope worlds: two chains of 0-3 schema resources (embedded or Loader-supplied, each with $dynamicAnchor / $anchor / nothing, entered through $ref, fragment-less $dynamicRef or in-place applicators) ending in one $dynamicRef in fragment, resource-relative or pointer form, with resources entered at a subschema, detours through failing branches, permuted chains (same set of resources in two orders) and fan-out roots (both chains in one call); a history of 6-16 (one in twelve: 150-400) Validate calls on ONE Resolved alternates between the chains with right, wrong and missing markers; 4 map-order schedules; a further batch of processes runs the same workload under the other JSONSCHEMAGODEBUG setting. Every verdict is compared with a 6-line outermost-first model and, on disagreement, with a freshly resolved copy to tell a topology error from a scope leak. Decides the histories clause and the Loader-layout clause; the purely topological single-document clause is a by-product.",
    "Model written from 2020-12 core 8.2.3.2 (fallback to the initial target when no resource in scope declares the anchor). Intermediate hops are lexical. Cross-document references address document roots only (per-document $id tables are a documented limitation of the library).",
    "deterministic simulation: simulated Loader layouts x call histories on one Resolved x seeded map-order schedules, by-construction dynamic-scope model"),
  "C10": ("fault_enumeration", "4 C10",
-   "Seeded deterministic simulation of Resolve/Validate/ApplyDefaults against an adversarial simulated Loader: per universe, for every call index and every behaviour in {error, (nil,nil), root document again, wrong document, same *Schema pointer again}, a document that declares the root's $id, every single failing document, documents that fail the resolver's checks and a 60-deep document chain; each operation runs under recover and a step budget (a hang is detected deterministically by counting yields). The same oracle wraps every operation of the other eight simulated workloads, which this check also runs. Decides the fault-sequence clause; robustness on arbitrary bytes / Schema graphs / Go representations / types is a pure function of the input and is not claimed.",
+   "Seeded deterministic simulation of Resolve/Validate/ApplyDefaults against an adversarial simulated Loader: per universe, for every call index and every behaviour in {error (alone, or together with an empty schema or with the whole document), (nil,nil), root document again, wrong document, same *Schema pointer again, the right document as a cyclic or heavily shared Go graph}, a document that declares the root's $id, every single failing document, documents that fail the resolver's checks or carry the same key twice, one Schema variable reused for document after document, a 60-deep document chain, and cold process starts whose first library calls are concurrent; each operation runs under recover and a step budget (a hang is detected deterministically by counting yields). The same oracle wraps every operation of the other eight simulated workloads, which this check also runs. Decides the fault-sequence clause; robustness on arbitrary bytes / Schema graphs / Go representations / types is a pure function of the input and is not claimed.",
    "A hang is a step-budget overrun (4*10^5 yields; the largest legitimate operation uses about 10^5). Instances are canonical encoding/json values held through a pointer.",
    "deterministic simulation: enumerated loader fault behaviours per call index + step-budget hang detector + recover around every simulated operation"),
  "C12": ("exploration", "4 C12",
-   "Seeded deterministic simulation of the per-call hash seed and of what it stands for: arrays with planted equal-but-not-identical duplicates at every pair of positions, enum and const checks, each validated under 8 (quick) / 24 (thorough) configurations of hash seed x collision mask (64/2/1/0 bits kept, forcing the equality fallback) x map order; verdict = pairwise Equal definition in every configuration; plus the hash law Equal(x,y) => same digest under one seed with independent map orders, through the generated hashValue helper. Decides the configuration clause.",
+   "Seeded deterministic simulation of the per-call hash seed and of what it stands for: arrays with planted equal-but-not-identical duplicates at every pair of positions, enum and const checks, each validated under 8 (quick) / 24 (thorough) configurations of hash seed x collision mask (64/2/1/0 bits kept, forcing the equality fallback) x map order; verdict = pairwise Equal definition in every configuration, also for 2-5 further instances asked of the same Resolved afterwards and for schemas decoded from JSON next to a twin that its owner edits; plus the hash law Equal(x,y) => same digest under one seed with independent map orders, through the generated hashValue helper. Decides the configuration clause.",
    "Equal is the definition (C11 not claimed). Values behind pointers and typed containers are not generated. purego maphash makes a seed a replayable decision.",
    "deterministic simulation: hash seed and forced collisions as injected faults, map-order schedules; definition oracle via public Equal; hash-law check via generated helper"),
  "C13": ("exploration", "4 C13",
@@ -27,15 +27,15 @@ claimed = {
    "Client mutations are field assignments and schema-map insertions only (non-schema slices/maps of TypeSchemas entries are documented as shared).",
    "deterministic simulation: call/mutation histories x process configurations x seeded map-order schedules, pointer-disjointness and byte-equality oracles"),
  "C19": ("exploration", "4 C19",
-   "Seeded deterministic simulation of Marshal under every map order: generated Schema values (nested PropertyOrder lists: permutations, subsets, supersets, absent names, duplicates; Extra; draft-07 dependencies union; inferred trees) marshaled >=4 times under the canonical schedule and 5 (quick) / 13 (thorough) further schedules; bytes identical across repetitions and schedules; on the token stream the keys of every properties object are [listed-that-exist in list order] ++ [rest ascending]; any duplicate makes Marshal fail under every schedule.",
+   "Seeded deterministic simulation of Marshal under every map order: generated Schema values (nested PropertyOrder lists: permutations, subsets, supersets, absent names, duplicates; Extra; draft-07 dependencies union; inferred trees) marshaled >=4 times under the canonical schedule and 5 (quick) / 13 (thorough) further schedules; bytes identical across repetitions and schedules; on the token stream the keys of every properties object are [listed-that-exist in list order] ++ [rest ascending]; any duplicate (or an Extra key that repeats a keyword) makes Marshal fail under every schedule; the caller overwrites the bytes MarshalJSON returned and later outputs must not change.",
    "Expected key order comes from a 10-line model of the property text. Bytes compared per entry point.",
    "deterministic simulation: every map iteration behind a seeded seam, repeated marshaling under many schedules, token-stream order oracle"),
  "C03": ("fault_enumeration", "4 C03",
-   "Seeded deterministic simulation of the real resolver and evaluator against a simulated document store (Loader): per generated universe every reachable reference - hop-to-hop through instance descent and in-place (allOf / sibling $ref) to leaves - is probed with right and wrong markers, every subset of failing documents and every 'k-th call fails' plan is enumerated, recovery after each failure is checked, and all of it is repeated under 4 map-order schedules. Worlds are sampled (seeded search), fault sets per world are enumerated. Right level because the property quantifies over inputs x configurations x fault sequences of the library's only I/O seam.",
+   "Seeded deterministic simulation of the real resolver and evaluator against a simulated document store (Loader): per generated universe every reachable reference - hop-to-hop through instance descent and in-place (allOf / sibling $ref) to leaves, directly or through chains of $ref-only alias schemas - is probed with right and wrong markers, every subset of failing documents and every 'k-th call fails' plan is enumerated, recovery after each failure is checked, and all of it is repeated under 4 map-order schedules. Worlds are sampled (seeded search), fault sets per world are enumerated. Right level because the property quantifies over inputs x configurations x fault sequences of the library's only I/O seam.",
    "Trusts net/url for RFC 3986 resolution and the by-construction model (reference text derived from its target). Cross-document references address document roots; pointer fragments do not cross embedded resources; error text is never compared.",
    "deterministic simulation: simulated Loader/document store with enumerated fault sets + seeded map-order schedules, by-construction reference model"),
  "C14": ("exploration", "4 C14",
-   "Seeded deterministic simulation over call histories x map-order schedules x hash seeds/collision masks x processes: the same history of Resolve/Validate/Marshal calls is executed on one schema tree (keyword-rich, cluster, wide, Loader universe or dynamic-scope fan-out world) under the canonical schedule and under 5 (quick) or 13 (thorough) further schedules; purity fingerprints, repeatability inside the history (including the sequence of Loader requests), equal result vectors across schedules, and a sample of runs repeated in fresh processes at GOMAXPROCS 1/4/16. The check also runs the C19 driver (Schema values with PropertyOrder), the C15 driver (instances around Validate) and the C12 driver (verdicts under other hash seeds and forced collisions), whose purity / seed-independence oracles report under C14.",
+   "Seeded deterministic simulation over call histories x map-order schedules x hash seeds/collision masks x processes: the same history of Resolve/Validate/Marshal calls is executed on one schema tree (keyword-rich, cluster, annotation-centred, wide, Loader universe or dynamic-scope fan-out world; instances partly built from Go pointers) under the canonical schedule and under 5 (quick) or 13 (thorough) further schedules; purity fingerprints, repeatability inside the history (including the sequence of Loader requests), equal result vectors across schedules, and a sample of runs repeated in fresh processes at GOMAXPROCS 1/4/16. The check also runs the C19 driver (Schema values with PropertyOrder), the C15 driver (instances around Validate) and the C12 driver (verdicts under other hash seeds and forced collisions), whose purity / seed-independence oracles report under C14.",
    "Observable result = verdict, bytes, Resolve ok/err (error text excluded). encoding/json's own map encoding and maps.Clone/Copy are assumed order-insensitive. Sampled, not exhaustive.",
    "deterministic simulation: every map iteration and hash seed behind a seeded seam, histories replayed under many schedules, fingerprints + cross-process digests"),
 }
